@@ -320,7 +320,8 @@ def call(ex, n, st, q, rd, objn, argn, method, want_lv):
         if name == 'front':
             return LElem(region, I(0), '', parse_type(n['type']))
         if name == 'back':
-            return LElem(region, st.len_of(region) - 1, '', parse_type(n['type']))
+            ex.safe(st, 'back-empty', st.len_of(region) > 0, 'back() of an empty vector is undefined')
+            return LElem(region, st.len_of(region) - 1, '', parse_type(n['type']), checked=True)
         if name == 'resize':
             sz = ex.ev(argn[0], st)
             if len(argn) > 1:
@@ -384,6 +385,15 @@ def call(ex, n, st, q, rd, objn, argn, method, want_lv):
             return ObjRef(path, ct.name)
         if name == 'size':
             raise ExtractionError('std::array size')
+    if kind == 'arr2' and name in ('operator==', 'operator!=') and len(argn) == 1:
+        def sv(nd):
+            v = ex.ev_obj(nd, st)
+            if isinstance(v, ObjRef):
+                v = ex.load(LObj(v), st)
+            return v
+        a_, b_ = sv(objn), sv(argn[0])
+        eq = z3.And(*[a_.fields[k_].t == b_.fields[k_].t for k_ in ('0', '1')])
+        return BoolV(eq if name == 'operator==' else z3.Not(eq))
     if kind == 'arr2':
         o = ex.ev_obj(objn, st)
         if name == 'operator[]':
@@ -708,6 +718,17 @@ def bitop(ex, st, op, va, vb, rct):
         return IntV(ex.wrap(r, rct) if not rct.signed else r, rct)
     if op == '>>' and z3.is_int_value(b):
         return IntV(va.t / (1 << b.as_long()), rct)
+    if op == '&' and (z3.is_int_value(a) or z3.is_int_value(b)):
+        c, x = (a.as_long(), vb.t) if z3.is_int_value(a) else (b.as_long(), va.t)
+        if z3.is_int_value(a) and z3.is_int_value(b):
+            return IntV(I(a.as_long() & b.as_long()), rct)
+        full = 1 << rct.bits
+        c %= full
+        if c & (c + 1) == 0:                      # low mask 2^k-1
+            return IntV(x % (c + 1), rct)
+        inv = (full - 1) ^ c
+        if inv & (inv + 1) == 0 and not rct.signed:   # ~(2^k-1): clear the low k bits
+            return IntV(x - x % (inv + 1), rct)
     raise ExtractionError(f'{ex.unit}: bit operation {op} on symbolic operands not modelled')
 
 
